@@ -25,14 +25,41 @@ def proj_result(kind, value):
         return {"kind": "tree", "term": {"k": "unprojectable:" + type(e).__name__}}
 
 
-def fresh(text):
+NMODES = 3
+
+
+def configure(parser, mode, in_place=False):
+    """tokenizer configurations a client can set through the parser's public tokenizer: 1 default, 2 padding kept,
+    3 two more functions registered (one with a name length no built-in has)"""
+    from mathy_core.expressions import SgnExpression, AbsExpression
+    tk = parser.tokenizer
+    tk.exclude_padding = mode != 2
+    table = {"sgn": SgnExpression}
+    if mode == 3:
+        table.update({"abs": AbsExpression, "absolute": AbsExpression})
+    if in_place:
+        for k in list(tk.functions):
+            if k not in table:
+                del tk.functions[k]
+        tk.functions.update(table)
+    else:
+        tk.functions = table
+
+
+def fresh(text, mode=1):
     from mathy_core.parser import ExpressionParser
+
+    def new():
+        p = ExpressionParser()
+        if mode != 1:
+            configure(p, mode)
+        return p
     try:
-        fp = proj_result("tree", ExpressionParser().parse(text))
+        fp = proj_result("tree", new().parse(text))
     except BaseException as e:  # noqa
         fp = proj_result("raise", e)
     try:
-        ft = proj_result("tokens", ExpressionParser().tokenize(text))
+        ft = proj_result("tokens", new().tokenize(text))
     except BaseException as e:  # noqa
         ft = proj_result("raise", e)
     return fp, ft
@@ -53,9 +80,10 @@ def run_history(case):
             index[key] = len(vals)
         return index[key]
     tinfo = []
+    uses_modes = any(op == "S" for op, _ in case["history"])
     for t in texts:
-        fp, ft = fresh(t)
-        tinfo.append({"fp": intern(fp), "ft": intern(ft)})
+        ans = [fresh(t, m) for m in (range(1, NMODES + 1) if uses_modes else (1,))]
+        tinfo.append({"fp": [intern(a[0]) for a in ans], "ft": [intern(a[1]) for a in ans]})
     parser = ExpressionParser()
     lists = project.ObjTable()
     handed = []
@@ -66,7 +94,7 @@ def run_history(case):
                 r = proj_result("tree", parser.parse(texts[arg]))
             except BaseException as e:  # noqa
                 r = proj_result("raise", e)
-            steps.append({"op": "parse", "t": arg + 1, "res": intern(r), "lid": 0})
+            steps.append({"op": "parse", "t": arg + 1, "res": intern(r), "lid": 0, "m": 0})
         elif op == "T":
             lid = 0
             try:
@@ -77,10 +105,10 @@ def run_history(case):
                     handed.append(lst)
             except BaseException as e:  # noqa
                 r = proj_result("raise", e)
-            steps.append({"op": "tokenize", "t": arg + 1, "res": intern(r), "lid": lid})
+            steps.append({"op": "tokenize", "t": arg + 1, "res": intern(r), "lid": lid, "m": 0})
         elif op == "C":
             parser.clear_cache()
-            steps.append({"op": "clear", "t": 0, "res": 0, "lid": 0})
+            steps.append({"op": "clear", "t": 0, "res": 0, "lid": 0, "m": 0})
         elif op == "E":
             if handed:
                 lst = handed[-1 if arg != "first_pop" else 0]
@@ -95,7 +123,16 @@ def run_history(case):
                         lst[0] = Token("9", 1 << 0)
                 except Exception:  # noqa
                     pass
-            steps.append({"op": "edit", "t": 0, "res": 0, "lid": 0})
+            steps.append({"op": "edit", "t": 0, "res": 0, "lid": 0, "m": 0})
+        elif op in ("FP", "FT"):
+            try:
+                r = proj_result("tree", ExpressionParser().parse(texts[arg])) if op == "FP" else proj_result("tokens", ExpressionParser().tokenize(texts[arg]))
+            except BaseException as e:  # noqa
+                r = proj_result("raise", e)
+            steps.append({"op": "fparse" if op == "FP" else "ftokenize", "t": arg + 1, "res": intern(r), "lid": 0, "m": 0})
+        elif op == "S":
+            configure(parser, arg, in_place=(len(steps) % 2 == 0))
+            steps.append({"op": "config", "t": 0, "res": 0, "lid": 0, "m": arg})
     return {"texts": tinfo, "steps": steps, "nvals": len(vals), "vals_sample": vals[:3]}
 
 
@@ -118,7 +155,7 @@ def domain(ctx, focus):
         texts = ["4x + 2y^3", "sgn(x) = 2", "4 +", "4 # 2", "12", "1 2"]
         ops = alphabet(len(texts))
         L = 3 if ctx.quick else 4
-    query = [["P", i] for i in range(len(texts))] + [["T", i] for i in range(len(texts))] + [["P", i] for i in range(len(texts))]
+    query = [["P", i] for i in range(len(texts))] + [["T", i] for i in range(len(texts))] + [["P", i] for i in range(len(texts))] + [["FP", i] for i in range(len(texts))]
     for n in range(0, L + 1):
         for h in itertools.product(ops, repeat=n):
             cases.append({"texts": texts, "history": list(h) + query})
@@ -129,13 +166,32 @@ def domain(ctx, focus):
         h = [rng.choice(allops) for _ in range(n)]
         q = [["P", i] for i in rng.sample(range(len(TEXTS)), 4)] + [["T", i] for i in rng.sample(range(len(TEXTS)), 4)]
         cases.append({"texts": TEXTS, "history": h + q})
+    # reconfiguration histories: the parser's public tokenizer is reconfigured (padding kept / more functions registered) between calls
+    nconf = 0
+    if focus != "sticky":
+        ctexts = ["4x + 2y^3", "abs(x)", "absolute(x) + 1", "2abs(y) - sgn(x)", "4 +"]
+        cops = [["P", i] for i in range(len(ctexts))] + [["T", i] for i in range(len(ctexts))] + [["C", None], ["S", 1], ["S", 2], ["S", 3]]
+        cquery = [["P", i] for i in range(len(ctexts))] + [["T", i] for i in range(len(ctexts))] + [["FP", i] for i in range(len(ctexts))] + [["FT", i] for i in range(len(ctexts))]
+        for n in range(1, 4):
+            for h in itertools.product(cops, repeat=n):
+                if not any(o == "S" for o, _ in h):
+                    continue
+                if n == 3 and ctx.quick and rng.random() < 0.5:
+                    continue
+                cases.append({"texts": ctexts, "history": list(h) + cquery, "noquery": True})
+                cases.append({"texts": ctexts, "history": list(h) + [["C", None]] + cquery, "noquery": True})
+                nconf += 2
+        for _ in range(200 if ctx.quick else 5000):
+            h = [rng.choice(cops) for _ in range(rng.randint(4, 12))] + [["S", rng.randint(1, 3)]]
+            cases.append({"texts": ctexts, "history": h + [["C", None]] + cquery, "noquery": True})
+            nconf += 1
     # stress histories: state that only builds up over many calls
-    deep_fail = ["((((((((x", "(((1 +", "sgn(((x", "2 * (((((y + 1", "(x))", "4 +"]
+    deep_fail = ["((((((((x", "(((1 +", "sgn(((x", "2 * (((((y + 1", "(x))", "4 +", "((((((((1.2.3", "((((((((.", "sgn(sgn(((1..2", "2 * (((((y + 1.2.3", "(((((((( #"]
     nstress = 0
     for ft in deep_fail:
         for n in ((40, 130) if not ctx.quick else (130,)):
-            tx = [ft, "(x)", "sgn(x) + (y)", "((2))", "x"]
-            h = [["P", 0]] * n + [["P", i] for i in range(1, 5)] + [["T", i] for i in range(1, 5)] + [["C", None]] + [["P", i] for i in range(1, 5)]
+            tx = [ft, "(x)", "sgn(x) + (y)", "((2))", "x", "(" * 40 + "x + 1" + ")" * 40]
+            h = [["P", 0]] * n + [["P", i] for i in range(1, 6)] + [["T", i] for i in range(1, 6)] + [["FP", i] for i in range(1, 6)] + [["C", None]] + [["P", i] for i in range(1, 6)]
             cases.append({"texts": tx, "history": h})
             nstress += 1
     long_fail = [" * ".join(["y"] * 30) + " *", " + ".join(["2x"] * 60) + " +", "(" * 30 + "x", "x" * 60 + ")", " / ".join(["3"] * 26) + " / )"]
@@ -166,7 +222,8 @@ def domain(ctx, focus):
             h3 = [["P", 0]] + [["P", k + 1] for k in range(n)] + [["P", 1], ["P", 0], ["T", 0], ["P", n]]
             cases.append({"texts": tx3, "history": h3, "noquery": True})
             nstress += 3
-    rule = ("%d stress histories (130 repeated failing parses of deeply parenthesised texts; cache-capacity probes around 128..1024 distinct texts); " % nstress) + ("all %d histories of length <= %d over %d operations (parse / tokenize of %d texts incl. one failing text per exception class, "
+    rule = ("%d reconfiguration histories (all of length <= 3 with at least one reconfiguration of the public tokenizer - padding kept, functions 'abs' and 'absolute' registered, in place or by replacing the table - "
+            "each with and without clear_cache before the queries, + random ones; every history ends with brand-new default parsers asked the same texts); " % nconf if nconf else "") + ("%d stress histories (130 repeated failing parses of deeply parenthesised texts; cache-capacity probes around 128..1024 distinct texts); " % nstress) + ("all %d histories of length <= %d over %d operations (parse / tokenize of %d texts incl. one failing text per exception class, "
             "clear_cache, %s) each followed by parse, tokenize and parse-again of every text; + seeded random histories up to length 14 over %d texts"
             % (exhaustive, L, len(ops), len(texts), "client edits of handed-out lists" if focus != "sticky" else "no edits", len(TEXTS)))
     return cases, rule
@@ -175,14 +232,14 @@ def domain(ctx, focus):
 def run_family(ctx, cases, prop, focus="history"):
     res = Result()
     if cases is None:
-        for cfg, expect in (("good", None), ("nocopy", "violated"), ("noreset", "violated")):
+        for cfg, expect in (("good", None), ("nocopy", "violated"), ("noreset", "violated"), ("keeptokens", "violated")):
             r = tlc.run("MC_ParserObject", "MC_ParserObject_%s.cfg" % cfg, ctx.work, workers=4, timeout=900)
             res.add_tlc(r, "model " + cfg)
             if expect is None and not r.ok():
                 raise tlc.TLCError("ParserObject model violates %s\n%s" % (r.violated, r.out[-1500:]))
             if expect and r.ok():
                 raise tlc.TLCError("vacuity: ParserObject variant %s should violate HistoryFree/CacheIntact but does not" % cfg)
-        res.extra["model_variants"] = "good: holds; CopyOnReturn=FALSE and ResetCursor=FALSE each violate (non-vacuity)"
+        res.extra["model_variants"] = "good: holds; CopyOnReturn=FALSE, ResetCursor=FALSE and ClearDropsTokens=FALSE each violate (non-vacuity)"
         cases, res.rule = domain(ctx, focus)
         res.exhaustive = True
     else:
